@@ -120,6 +120,14 @@ def check_arm(m, rep, op, nm, arm, cases, sites_of, tbs):
 def run(fx, rep):
     m = EvalModel(fx)
     run_model(m, rep)
+    # the evaluator's arms decide the property only if the tree has the operands where the source has them:
+    # the parser's construction of `?:`, `&&`, `||` nodes (C04 R3/R4/R7/R9) is re-checked here as a producer rule
+    rep.rule('P1', 'producer rule: the parser builds `?:` as (condition, then, else) of its own children and `&&`/`||` chains in source order, without regrouping built sub-expressions')
+    from . import c04
+    from .report import Forwarder
+    fw = Forwarder(rep, 'P1', r'^(R3/visit_expr/|R4/|R7/visit_(expr|conditionalOr|conditionalAnd)/|R9/|R3/labels/)', 'C04')
+    c04.run(fx, fw)
+    rep.check(fw.n >= 12, 'P1', 'parser-rules-evaluated', 'antlr/src/parser.rs', '%d parser-side instances' % fw.n, 'only %d parser-side instances evaluated (anchor lost)' % fw.n)
     rep.floor('S1', 4)
     rep.floor('S2', 4)
     rep.floor('S3', 4)
